@@ -17,6 +17,64 @@ mod imp {
         }
         fn flush(&mut self) -> std::io::Result<()> { Ok(()) }
     }
+    // ---- a data format that is not JSON and not human-readable: which primitive does the value serialise to? ----
+    pub struct Probe { pub human: bool }
+    #[derive(Debug)]
+    pub struct ProbeErr(String);
+    impl std::fmt::Display for ProbeErr { fn fmt(&self, f: &mut std::fmt::Formatter<'_>) -> std::fmt::Result { f.write_str(&self.0) } }
+    impl std::error::Error for ProbeErr {}
+    impl serde::ser::Error for ProbeErr { fn custom<T: std::fmt::Display>(m: T) -> Self { ProbeErr(m.to_string()) } }
+    type Imp = serde::ser::Impossible<String, ProbeErr>;
+    macro_rules! other { ($($n:ident($t:ty)),*) => { $( fn $n(self, _: $t) -> Result<String, ProbeErr> { Ok(concat!("other:", stringify!($n)).into()) } )* } }
+    impl serde::Serializer for Probe {
+        type Ok = String; type Error = ProbeErr;
+        type SerializeSeq = Imp; type SerializeTuple = Imp; type SerializeTupleStruct = Imp; type SerializeTupleVariant = Imp;
+        type SerializeMap = Imp; type SerializeStruct = Imp; type SerializeStructVariant = Imp;
+        fn is_human_readable(&self) -> bool { self.human }
+        fn serialize_str(self, v: &str) -> Result<String, ProbeErr> { Ok(format!("str:{}", v)) }
+        fn serialize_bytes(self, v: &[u8]) -> Result<String, ProbeErr> { Ok(format!("bytes:{}", String::from_utf8_lossy(v))) }
+        other!(serialize_bool(bool), serialize_i8(i8), serialize_i16(i16), serialize_i32(i32), serialize_i64(i64), serialize_u8(u8), serialize_u16(u16),
+               serialize_u32(u32), serialize_u64(u64), serialize_f32(f32), serialize_f64(f64), serialize_char(char), serialize_unit_struct(&'static str));
+        fn serialize_none(self) -> Result<String, ProbeErr> { Ok("other:none".into()) }
+        fn serialize_some<T: ?Sized + serde::Serialize>(self, v: &T) -> Result<String, ProbeErr> { v.serialize(self) }
+        fn serialize_unit(self) -> Result<String, ProbeErr> { Ok("other:unit".into()) }
+        fn serialize_unit_variant(self, _: &'static str, _: u32, _: &'static str) -> Result<String, ProbeErr> { Ok("other:unit_variant".into()) }
+        fn serialize_newtype_struct<T: ?Sized + serde::Serialize>(self, _: &'static str, v: &T) -> Result<String, ProbeErr> { v.serialize(self) }
+        fn serialize_newtype_variant<T: ?Sized + serde::Serialize>(self, _: &'static str, _: u32, _: &'static str, _: &T) -> Result<String, ProbeErr> { Ok("other:newtype_variant".into()) }
+        fn serialize_seq(self, _: Option<usize>) -> Result<Imp, ProbeErr> { Err(ProbeErr("other:seq".into())) }
+        fn serialize_tuple(self, _: usize) -> Result<Imp, ProbeErr> { Err(ProbeErr("other:tuple".into())) }
+        fn serialize_tuple_struct(self, _: &'static str, _: usize) -> Result<Imp, ProbeErr> { Err(ProbeErr("other:tuple_struct".into())) }
+        fn serialize_tuple_variant(self, _: &'static str, _: u32, _: &'static str, _: usize) -> Result<Imp, ProbeErr> { Err(ProbeErr("other:tuple_variant".into())) }
+        fn serialize_map(self, _: Option<usize>) -> Result<Imp, ProbeErr> { Err(ProbeErr("other:map".into())) }
+        fn serialize_struct(self, _: &'static str, _: usize) -> Result<Imp, ProbeErr> { Err(ProbeErr("other:struct".into())) }
+        fn serialize_struct_variant(self, _: &'static str, _: u32, _: &'static str, _: usize) -> Result<Imp, ProbeErr> { Err(ProbeErr("other:struct_variant".into())) }
+    }
+    /// the serde form does not depend on the data format: a string, for a human-readable and for a binary format alike;
+    /// serde's own value deserializers: strings (borrowed, transient, owned) parse like from_bytes, everything else is an error
+    pub fn format_independent(li: &LanguageIdentifier) -> Option<String> {
+        use serde::Serialize;
+        let want = format!("str:{}", li);
+        for human in [true, false] {
+            let got = li.serialize(Probe { human }).unwrap_or_else(|e| format!("err:{}", e));
+            if got != want { return Some(format!("INCONSISTENT a {} serializer receives {} instead of {}", if human { "human-readable" } else { "binary (not human-readable)" }, got, want)); }
+        }
+        None
+    }
+    pub fn value_deserializers(s: &str) -> Option<String> {
+        use serde::de::value::{BorrowedStrDeserializer, BytesDeserializer, BorrowedBytesDeserializer, StrDeserializer, StringDeserializer, U32Deserializer, UnitDeserializer, Error as VErr};
+        use serde::Deserialize;
+        let want = LanguageIdentifier::from_bytes(s.as_bytes()).ok();
+        let a = LanguageIdentifier::deserialize(StrDeserializer::<VErr>::new(s)).ok();
+        let b = LanguageIdentifier::deserialize(StringDeserializer::<VErr>::new(s.to_string())).ok();
+        let c = LanguageIdentifier::deserialize(BorrowedStrDeserializer::<VErr>::new(s)).ok();
+        if a != want || b != want || c != want { return Some(format!("INCONSISTENT value deserializers: str={:?} string={:?} borrowed={:?} from_bytes={:?}", a.is_some(), b.is_some(), c.is_some(), want.is_some())); }
+        let d = LanguageIdentifier::deserialize(BytesDeserializer::<VErr>::new(s.as_bytes())).is_ok();
+        let e = LanguageIdentifier::deserialize(BorrowedBytesDeserializer::<VErr>::new(s.as_bytes())).is_ok();
+        let f = LanguageIdentifier::deserialize(U32Deserializer::<VErr>::new(7)).is_ok();
+        let g = LanguageIdentifier::deserialize(UnitDeserializer::<VErr>::new()).is_ok();
+        if d || e || f || g { return Some(format!("INCONSISTENT a non-string input is accepted: bytes={} borrowed-bytes={} u32={} unit={}", d, e, f, g)); }
+        None
+    }
     pub fn serde_ser(v: &[u8]) -> String {
         match LanguageIdentifier::from_bytes(v) {
             Ok(li) => {
@@ -28,6 +86,7 @@ mod imp {
                     let _ = serde_json::to_writer(FailWriter { left }, &other);
                     let _ = serde_json::to_writer(FailWriter { left: left + 2 }, &vec![other.clone(), li.clone()]);
                 }
+                if let Some(e) = format_independent(&li) { return e; }
                 let a = serde_json::to_string(&li);
                 let b = serde_json::to_value(&li);
                 match (a, b) {
@@ -54,6 +113,7 @@ mod imp {
     /// the argument is the string VALUE; it is encoded as JSON three ways
     pub fn serde_de(v: &[u8]) -> String {
         let s = match std::str::from_utf8(v) { Ok(s) => s, Err(_) => return "BADARG".into() };
+        if let Some(e) = value_deserializers(s) { return e; }
         let plain = serde_json::to_string(s).unwrap();
         let mut esc = String::from("\"");
         for c in s.chars() {
